@@ -2,10 +2,16 @@ package main
 
 import (
 	"bytes"
+	"crypto/ed25519"
 	"fmt"
 	"reflect"
 	"sort"
 	"strings"
+
+	"github.com/go-i2p/common/encrypted_leaseset"
+	"github.com/go-i2p/common/lease_set2"
+	"github.com/go-i2p/common/meta_leaseset"
+	"github.com/go-i2p/common/router_info"
 )
 
 func init() { props["C08"] = runC08 }
@@ -146,6 +152,7 @@ var documentedCopies = map[string]bool{"TransientPublicKey": true, "Signature": 
 
 func runC08(c *Ctx) {
 	r := c.R
+	c08Authentic(c)
 	overwrite := func(buf []byte, mode int) {
 		for i := range buf {
 			switch mode {
@@ -257,8 +264,86 @@ func runC08(c *Ctx) {
 	}
 }
 
+// c08Authentic: structures that really verify (signed by the harness with a known key), parsed
+// from a buffer that is then overwritten: Verify() is among the things the value "later reports"
+func c08Authentic(c *Ctx) {
+	r := c.R
+	for i := 0; i < c.N(12, 300); i++ {
+		k := genEd(r)
+		st := []int{7, 11}[r.Intn(2)]
+		type tc struct {
+			name string
+			wire []byte
+			run  func(b []byte) (func() error, func() []byte, error)
+		}
+		// C08 names the identity, key, lease and signature parts of a LeaseSet2 / MetaLeaseSet, not
+		// their options mappings: the structures here carry none, so the whole value is in scope
+		l2, signer := signLS2(r, k, st, r.Intn(3) == 0)
+		l2.H.Options, l2.Sig = nil, nil
+		l2.Sig = ed25519.Sign(signer.priv, cat([]byte{3}, l2.Encode()))
+		ml := signMeta(r, k, st, false)
+		ml.H.Options, ml.Sig = nil, nil
+		for j := range ml.Entries {
+			ml.Entries[j].Props = nil
+		}
+		ml.Sig = ed25519.Sign(k.priv, cat([]byte{7}, ml.Encode()))
+		el := signEnc(r, k, st, r.Intn(3) == 0)
+		ri := signRouterInfo(r, k)
+		cases := []tc{
+			{"ReadLeaseSet2", l2.Encode(), func(b []byte) (func() error, func() []byte, error) {
+				v, _, err := lease_set2.ReadLeaseSet2(b)
+				return v.Verify, func() []byte { x, _ := v.Bytes(); return x }, err
+			}},
+			{"ReadMetaLeaseSet", ml.Encode(), func(b []byte) (func() error, func() []byte, error) {
+				v, _, err := meta_leaseset.ReadMetaLeaseSet(b)
+				return v.Verify, func() []byte { x, _ := v.Bytes(); return x }, err
+			}},
+			{"ReadEncryptedLeaseSet", el.Encode(), func(b []byte) (func() error, func() []byte, error) {
+				v, _, err := encrypted_leaseset.ReadEncryptedLeaseSet(b)
+				return v.Verify, func() []byte { x, _ := v.Bytes(); return x }, err
+			}},
+			{"ReadRouterInfo", ri.Encode(), func(b []byte) (func() error, func() []byte, error) {
+				v, _, err := router_info.ReadRouterInfo(b)
+				return func() error {
+					ok, e := v.VerifySignature()
+					if e == nil && !ok {
+						return fmt.Errorf("not verified")
+					}
+					return e
+				}, func() []byte { x, _ := v.Bytes(); return x }, err
+			}},
+		}
+		for _, t := range cases {
+			buf := cp(t.wire)
+			verify, ser, err := t.run(buf)
+			if err != nil {
+				continue
+			}
+			v1 := verify()
+			b1 := ser()
+			for j := range buf {
+				buf[j] ^= byte(1 + r.Intn(255))
+			}
+			v2 := verify()
+			b2 := ser()
+			if t.name == "ReadRouterInfo" {
+				continue // RouterInfo is not among the structures C08 names; observed only
+			}
+			c.Check("value_independent_of_input_buffer", (v1 == nil) == (v2 == nil) && bytes.Equal(b1, b2), t.name+".Verify", [][]byte{t.wire}, "",
+				fmt.Sprintf("authentic structure: Verify() before overwriting the input buffer: %v, after: %v; Bytes() unchanged=%v", v1, v2, bytes.Equal(b1, b2)))
+		}
+	}
+}
+
 // reserialise calls Bytes() (with or without error result) or Data() on a value
 func reserialise(v interface{}) []byte {
+	b, _ := reserialiseRaw(v)
+	return b
+}
+
+// reserialiseRaw also returns the very slice the method handed out (nil when the result was not a
+// byte slice), so that the caller can write into it
+func reserialiseRaw(v interface{}) (copyOf []byte, handedOut []byte) {
 	rv := reflect.ValueOf(v)
 	for _, name := range []string{"Bytes", "Data"} {
 		m := rv.MethodByName(name)
@@ -267,18 +352,56 @@ func reserialise(v interface{}) []byte {
 		}
 		out := m.Call(nil)
 		if len(out) >= 1 && out[0].Kind() == reflect.Slice {
-			return cp(out[0].Bytes())
+			return cp(out[0].Bytes()), out[0].Bytes()
 		}
 		if len(out) >= 1 && out[0].Kind() == reflect.Array {
 			b := make([]byte, out[0].Len())
 			for i := range b {
 				b[i] = byte(out[0].Index(i).Uint())
 			}
-			return b
+			return b, nil
 		}
 		if len(out) >= 1 && out[0].Kind() == reflect.String {
-			return []byte(out[0].String())
+			return []byte(out[0].String()), nil
 		}
 	}
-	return nil
+	return nil, nil
+}
+
+// scribble writes over a slice the library handed out, and over the spare capacity behind it
+// (what "append(x.Bytes(), more...)" does): both are the caller's to write
+func scribble(b []byte) {
+	for i := range b {
+		b[i] ^= 0xA5
+	}
+	full := b[:cap(b)]
+	for i := len(b); i < len(full); i++ {
+		full[i] ^= 0x5A
+	}
+}
+
+// stableStruct: for a struct value, serialising, writing over the returned bytes and serialising
+// again yields the same bytes (a serialisation is not a window onto the value's own storage)
+func stableStruct(v interface{}) (ok bool, applicable bool) {
+	rv := reflect.ValueOf(v)
+	if !rv.IsValid() {
+		return true, false
+	}
+	k := rv.Kind()
+	if k == reflect.Ptr {
+		if rv.IsNil() {
+			return true, false
+		}
+		k = rv.Elem().Kind()
+	}
+	if k != reflect.Struct {
+		return true, false // slice- and array-typed values are their own storage
+	}
+	keep, raw := reserialiseRaw(v)
+	if raw == nil {
+		return true, false
+	}
+	scribble(raw)
+	again := reserialise(v)
+	return bytes.Equal(keep, again), true
 }
